@@ -99,6 +99,8 @@ def run(ctx):
         # the whole request menu on ONE Data object (whole-array requests before the slices): the climatology is removed exactly once
         dscommon.run_family(ctx, "C14", fmt="text", limit=150, fresh=False, always_nontrivial=True)
         dscommon.run_family(ctx, "C14Two", fmt="text", limit=100, fresh=False, always_nontrivial=True)
+        dscommon.run_family(ctx, "C14Range", fmt="text", limit=200, always_nontrivial=True)
+        dscommon.run_family(ctx, "C14Range", fmt="text", limit=80, fresh=False, always_nontrivial=True)
         _legend(ctx, "C14Two", 40)
         _legend(ctx, "C14", 20)
     else:
@@ -108,6 +110,8 @@ def run(ctx):
         dscommon.run_family(ctx, "C01Clim", fmt="text", always_nontrivial=True)
         dscommon.run_family(ctx, "C14", fmt="text", fresh=False, always_nontrivial=True)
         dscommon.run_family(ctx, "C14Two", fmt="text", fresh=False, always_nontrivial=True)
+        dscommon.run_family(ctx, "C14Range", fmt="text", always_nontrivial=True)
+        dscommon.run_family(ctx, "C14Range", fmt="text", fresh=False, always_nontrivial=True)
         _legend(ctx, "C14Two", 400)
         _legend(ctx, "C14", 200)
         ctx.exhaustive = True
